@@ -188,7 +188,10 @@ fn run(payload: &str) -> String {
     let o = through_bundle(&input, func);
     // the result is a function of the arguments: the same call made while ANOTHER thread transforms the same text in
     // another style (flipped / elongated the other way round) gives the same result, for both of them
-    let x = if dom && !input.is_empty() {
+    let first_panics = FIRST_CALL_PANICS.load(std::sync::atomic::Ordering::SeqCst);
+    let x = if first_panics > 0 {
+        format!("RACE:FIRST-CALL-PANICS-{}", first_panics)
+    } else if dom && !input.is_empty() {
         let other = fluent_pseudo::transform_dom(&input, !fl[0], !fl[1], fl[2]).into_owned();
         let go = std::sync::atomic::AtomicUsize::new(0);
         let run = |flipped: bool, elongate: bool, expect: &str| -> Option<String> {
@@ -219,6 +222,29 @@ fn run(payload: &str) -> String {
     format!("ok:{};m:{};n:{};s:{};r:{};l:{};q:{};u:{};x:{}", hex_enc(direct.as_bytes()), o[0], o[1], o[2], o[3], o[4], o[5], o[6], x)
 }
 
+/// set when one of the threads that made the FIRST transform_dom calls of this process (all at once) panicked
+static FIRST_CALL_PANICS: std::sync::atomic::AtomicUsize = std::sync::atomic::AtomicUsize::new(0);
+
 fn main() {
+    // the first use of the process happens on 8 threads at the same instant: whatever is initialised lazily on first use
+    // (compiled regexes, tables) must be ready for every one of them
+    std::panic::set_hook(Box::new(|_| {}));
+    let go = std::sync::Barrier::new(8);
+    std::thread::scope(|sc| {
+        let hs: Vec<_> = (0..8)
+            .map(|i| {
+                let go = &go;
+                sc.spawn(move || {
+                    go.wait();
+                    fluent_pseudo::transform_dom("Hello <b>World</b> &amp; more", i % 2 == 0, i % 3 == 0, false).into_owned()
+                })
+            })
+            .collect();
+        for h in hs {
+            if h.join().is_err() {
+                FIRST_CALL_PANICS.fetch_add(1, std::sync::atomic::Ordering::SeqCst);
+            }
+        }
+    });
     fvh::run_main(run);
 }
